@@ -93,7 +93,7 @@ def mutants(repo, files_filter):
 
 def run(cmd, cwd, timeout):
     try:
-        r = subprocess.run(cmd, cwd=cwd, env=ENV, stdout=subprocess.PIPE, stderr=subprocess.STDOUT, timeout=timeout, text=True)
+        r = subprocess.run(cmd, cwd=cwd, env=ENV, stdout=subprocess.PIPE, stderr=subprocess.STDOUT, timeout=timeout, text=True, errors="replace")
         return r.returncode, r.stdout
     except subprocess.TimeoutExpired as e:
         return 124, (e.stdout or "") if isinstance(e.stdout, str) else ""
@@ -161,7 +161,7 @@ def main():
                                     env = dict(ENV, VERIF_EVIDENCE_DIR=S + "/ev", VERIF_SEED="1", VERIF_CASE_DEADLINE="60", VERIF_CHECK_DEADLINE="900")
                                     try:
                                         r = subprocess.run([S + "/vcheck", c, "--tier", "quick"], cwd="/verif", env=env, stdout=subprocess.PIPE,
-                                                           stderr=subprocess.STDOUT, timeout=1500, text=True)
+                                                           stderr=subprocess.STDOUT, timeout=1500, text=True, errors="replace")
                                         rc2, o2 = r.returncode, r.stdout
                                     except subprocess.TimeoutExpired:
                                         rc2, o2 = 124, ""
